@@ -234,6 +234,19 @@ Prods(h) ==
            \* ... while `q.c` with an Int-typed local q still denotes the module's c
            P(1, "shadow_acc_mod", <<NT("NEEDACC"), OPEN("BLOCK"), T("{"), NT("MARK"), OPEN("STMT_LET"), T("let"), NT("PATSTART"), NT("ACCBINDER"), T("="), T("1"), NT("COMMIT"), CLOSE,
                                     OPEN("STMT_EXPR"), OPEN("EXPR_CALL"), OPEN("FIELD_ACCESS"), NT("ACCMODREF"), CLOSE, T("("), T(")"), CLOSE, CLOSE, NT("POPMARK"), T("}"), CLOSE>>),
+           \* a field access on a value whose type nothing pins down (the parameter of a lambda whose value is discarded, so it is
+           \* never applied): the label denotes no declaration - in particular not the local / function / constant that happens to
+           \* be spelled like it
+           P(1, "unknown_field", <<OPEN("BLOCK"), T("{"), OPEN("STMT_EXPR"),
+                                   OPEN("LAMBDA"), T("fn"), T("("), NT("MARK"), NT("PATSTART"), NT("SPAREBINDER"), NT("COMMIT"), T(")"), T("{"),
+                                   OPEN("STMT_EXPR"), OPEN("FIELD_ACCESS"), NT("ACCLOCALREF"), T("."), NT("UNKFIELD"), CLOSE, CLOSE, T("}"), NT("POPMARK"), CLOSE,
+                                   CLOSE, OPEN("STMT_EXPR"), T("1"), CLOSE, T("}"), CLOSE>>),
+           \* a clause that binds nothing, directly followed by one that binds: the second clause's variables are not in scope
+           \* in the first one's body
+           P(1, "case_nobind_bind", <<OPEN("CASE"), T("case"), NT("EXPR0"), T("{"),
+                                      OPEN("CLAUSE"), NT("MARK"), T("1"), T("->"), NT("REF"), NT("POPMARK"), CLOSE,
+                                      OPEN("CLAUSE"), NT("MARK"), NT("PATSTART"), NT("BINDER"), NT("COMMIT"), T("->"), T("1"), NT("POPMARK"), CLOSE,
+                                      T("}"), CLOSE>>),
            P(1, "own_field", <<NT("NEEDTYPE"), OPEN("FIELD_ACCESS"), OPEN("EXPR_CALL"), Sym("OWNCTOR", "T", 0), T("("), T("1"), T(","), NT("EXPR"), T(")"), CLOSE,
                                T("."), Sym("FIELDREF", "a", 0), CLOSE>>) }
     [] h.s = "EXPR0" ->            \* operand position: atoms only
@@ -426,6 +439,17 @@ Step ==
                /\ Emit(Tok(n, IF h.s = "BINDER" THEN "def" ELSE "spreaddef", Len(out) + 1, {}))
                /\ pending' = [pending EXCEPT ![Len(pending)] = top \cup {<<n, Len(out) + 1>>}]
                /\ todo' = Rest /\ UNCHANGED <<frames, budget>>
+       \* a binder with a name no other binding uses (its type stays unknown: nothing else mentions it)
+       [] h.s = "SPAREBINDER" ->
+            LET n == CHOOSE x \in SpareNames : Resolve(x) = 0 /\ \A k \in 1..Len(pending) : \A e \in pending[k] : e[1] # x
+            IN /\ Emit(Tok(n, "def", Len(out) + 1, {}))
+               /\ pending' = [pending EXCEPT ![Len(pending)] = pending[Len(pending)] \cup {<<n, Len(out) + 1>>}]
+               /\ todo' = Rest /\ UNCHANGED <<frames, budget>>
+       \* a label after a value of unknown type, spelled like a name that may be in scope as a value: it denotes nothing
+       [] h.s = "UNKFIELD" ->
+            \E n \in Pick(Names \cup {"c"}) :
+               /\ Emit(Tok(n, "field", 0, {}))
+               /\ todo' = Rest /\ UNCHANGED <<frames, pending, budget>>
        [] h.s = "ALTPAT" ->
             \* second alternative: binds the same single name as the first (tg = the first alternative's binder)
             /\ \E e \in frames[Len(frames)].b :
